@@ -2,19 +2,18 @@
 """Re-run every seeded change under /verif/seeded against the CURRENT quick check of its property.
 
 usage: tools/seed_regress.py [Cxx ...]        (default: all)
-For each seeded/<Cxx>-<X>/patch.diff: apply it in the scratch worktree /tmp/wt_mut (never in /repo), run
+For each seeded/<Cxx>-<X>/patch.diff: apply it in the scratch worktree /tmp/wt_sreg (never in /repo), run
 `vp_check.py Cxx --tier quick --no-evidence` against it (VERIF_REPO_SRC), undo it, and record the outcome in
-eval.json under "regress" (check commit, violation / harness-error line counts).  "caught_by_quick" is updated to the
+eval.json under "regress" (check commit, violation / harness-error line counts); the shrunk failing inputs that
+reproduce on the patched code and pass on /repo are saved as regression inputs corpus/replays/<Cxx>_seed_<X>_<n>.json.  "caught_by_quick" is updated to the
 new outcome.  A patch that no longer applies (the code it touched was repaired by a fix: commit) is recorded as such.
 The scratch worktree is removed at the end.
 """
 import glob, json, os, subprocess, sys
+sys.path.insert(0, os.path.dirname(os.path.abspath(__file__)))
+from _harvest import sh, run_quick, harvest
 
-WT = "/tmp/wt_mut"
-
-
-def sh(*a, **k):
-    return subprocess.run(a, capture_output=True, text=True, **k)
+WT = "/tmp/wt_sreg"
 
 
 def main():
@@ -41,19 +40,19 @@ def main():
             rows.append((name, "does-not-apply"))
         else:
             sh("git", "-C", WT, "apply", d + "/patch.diff")
-            env = dict(os.environ, VERIF_REPO_SRC=WT + "/src")
-            r = sh("/venv/bin/python", "/verif/vp_check.py", prop, "--tier", "quick", "--no-evidence", "--budget", "3600",
-                   env=env, cwd="/verif")
-            lines = [ln for ln in (r.stdout + r.stderr).splitlines() if not ln.startswith("KNOWN")]
+            rc, lines, replays = run_quick(prop, WT + "/src")
             nv = sum(ln.startswith("VIOLATION") for ln in lines)
             nh = sum(ln.startswith("HARNESS-ERROR") for ln in lines)
-            ev["regress"] = {"verif_commit": vhead, "repo_commit": head[:8], "applies": True, "exit": r.returncode,
+            ev["regress"] = {"verif_commit": vhead, "repo_commit": head[:8], "applies": True, "exit": rc,
                              "violation_lines": nv, "harness_error_lines": nh}
+            ev["regress"]["regression_inputs"] = harvest(prop, "seed_" + name.split("-")[1], replays, WT + "/src",
+                                                         "shrunk failing input of the quick check against seeded change " + name)
             ev["caught_by_quick"] = nv > 0
             ev["quick_check_violation_lines"] = nv
             ev["quick_check_harness_error_lines"] = nh
             open(d + "/check_quick.out", "w").write("\n".join(ln[:700] for ln in lines[:12]) + "\n")
-            rows.append((name, "caught" if nv else ("HARNESS" if nh else "MISSED"), r.returncode))
+            rows.append((name, "caught" if nv else ("HARNESS" if nh else "MISSED"), rc,
+                         len(ev["regress"]["regression_inputs"])))
             sh("git", "-C", WT, "checkout", "-q", "--", ".")
         json.dump(ev, open(d + "/eval.json", "w"), indent=1)
         print(*rows[-1], flush=True)
